@@ -134,3 +134,91 @@ func specRangeEmpty(n, start, end int) bool {
 	}
 	return specRangeFrom(n, start) > specRangeLast(n, end)
 }
+
+// BITFIELD SET / INCRBY (C18). specBfDir says whether the mathematical target
+// of a write sub-command lies inside the field's range (0), above it (1) or
+// below it (-1): the target of SET is the given value, the target of INCRBY is
+// current+delta over the integers. No intermediate wraps.
+func specBfDir(signed bool, isSet bool, cur, delta int64, bits int) int {
+	if isSet {
+		if signed {
+			if specFitsSigned(delta, bits) {
+				return 0
+			}
+			if delta > 0 {
+				return 1
+			}
+			return -1
+		}
+		if delta < 0 {
+			return -1
+		}
+		if specFitsUnsigned(delta, bits) {
+			return 0
+		}
+		return 1
+	}
+	if signed {
+		if !specSignedSumOverflows(cur, delta, bits) {
+			return 0
+		}
+		if delta > 0 {
+			return 1
+		}
+		return -1
+	}
+	// unsigned: 0 <= cur < 2^bits, bits <= 63
+	max := int64(9223372036854775807)
+	if bits < 63 {
+		max = int64(1)<<uint(bits) - 1
+	}
+	if delta > 0 && delta > max-cur {
+		return 1
+	}
+	if delta < 0 && delta < -cur {
+		return -1
+	}
+	return 0
+}
+
+// specBfTarget is the 64-bit two's complement target (it equals the
+// mathematical one whenever specBfDir is 0).
+func specBfTarget(isSet bool, cur, delta int64) int64 {
+	if isSet {
+		return delta
+	}
+	return cur + delta
+}
+
+// specBfWrap reduces v modulo 2^bits into the field's range.
+func specBfWrap(signed bool, v int64, bits int) int64 {
+	if bits >= 64 {
+		return v
+	}
+	m := v & (int64(1)<<uint(bits) - 1)
+	if signed {
+		return specSignExtend(m, bits)
+	}
+	return m
+}
+
+// specBfLimit is the end of the field's range in direction dir.
+func specBfLimit(signed bool, dir int, bits int) int64 {
+	if signed {
+		var hi int64 = 9223372036854775807
+		if bits < 64 {
+			hi = int64(1)<<uint(bits-1) - 1
+		}
+		if dir > 0 {
+			return hi
+		}
+		return -hi - 1
+	}
+	if dir < 0 {
+		return 0
+	}
+	if bits >= 63 {
+		return 9223372036854775807
+	}
+	return int64(1)<<uint(bits) - 1
+}
